@@ -659,11 +659,13 @@ func init() {
 				held := mustBeforeInstr(mu, lock, unlock)
 				rechecked := false
 				for _, ft := range condFacts(mu.Block()) {
-					bo, ok := ft.Cond.(*ssa.BinOp)
-					if !ok || !((bo.Op == token.EQL && ft.Truth) || (bo.Op == token.NEQ && !ft.Truth)) {
-						continue
+					var sides []ssa.Value
+					if bo, ok := ft.Cond.(*ssa.BinOp); ok && ((bo.Op == token.EQL && ft.Truth) || (bo.Op == token.NEQ && !ft.Truth)) && (isNilConst(bo.X) || isNilConst(bo.Y)) {
+						sides = []ssa.Value{bo.X, bo.Y}
+					} else if ex, ok := ft.Cond.(*ssa.Extract); ok && ex.Index == 1 && !ft.Truth {
+						sides = []ssa.Value{ex.Tuple} // `_, ok := m[k]` found absent
 					}
-					for _, side := range []ssa.Value{bo.X, bo.Y} {
+					for _, side := range sides {
 						lk, ok := resolve(side).(*ssa.Lookup)
 						if !ok {
 							continue
